@@ -9,7 +9,7 @@ let variant = if Array.length Sys.argv > 1 then String.split_on_char ',' Sys.arg
 let fixed = List.mem "clip" variant
 let v_empty = List.mem "empty" variant
 let v_switch = List.mem "switch" variant
-let v_cache = List.mem "cache" variant    (* proposed notes/fix_C15_4.diff *)
+let v_cache = List.mem "cache" variant    (* /repo commit 8f58d2d *)
 
 let zi s = z_of_int (int_of_string s)
 let zhex s = z_of_int (int_of_string ("0x" ^ s))
